@@ -13,6 +13,22 @@ pub mod c02_eps;
 pub mod c15_tags;
 #[cfg(kani)]
 pub mod c07_pad;
+#[cfg(kani)]
+pub mod c10_header;
+#[cfg(kani)]
+pub mod c11_trunc;
+#[cfg(kani)]
+pub mod c12_place;
+#[cfg(kani)]
+pub mod c13_wfail;
+#[cfg(kani)]
+pub mod c14_rfrag;
+#[cfg(kani)]
+pub mod c16_slices;
+#[cfg(kani)]
+pub mod c17_zero;
+#[cfg(kani)]
+pub mod c19_cursor;
 
 // Filled in (in the work copy only) by /verif/check when it replays a
 // counterexample: Kani's concrete-playback unit tests.
